@@ -23,6 +23,30 @@ CODEC_CALL = re.compile(r"^quill::Codec<(.*)>::(compute_encoded_size|encode|deco
 FORMAT_CODEC = re.compile(r"^quill::(DeferredFormatCodec|DirectFormatCodec)<(.*)>::(compute_encoded_size|encode|decode_arg|decode_and_store_arg)$")
 
 
+MEMBER_HELPERS = {"quill::compute_total_encoded_size": ("size", 1), "quill::encode_members": ("encode", 3), "quill::decode_members": ("decode", 2)}
+
+
+def remove_cvref_txt(ty):
+    """std::remove_cv_t<std::remove_reference_t<T>> on clang's spelling of a type"""
+    t = ty.strip()
+    while t.endswith("&"):
+        t = t[:-1].rstrip()
+    changed = True
+    while changed:
+        changed = False
+        for q in ("const", "volatile"):
+            if t.endswith("*" + q) or t.endswith("* " + q):
+                t = t[:-len(q)].rstrip()
+                changed = True
+            elif "*" not in t and "<" not in t.split(q)[0] and t.startswith(q + " "):
+                t = t[len(q) + 1:]
+                changed = True
+            elif "*" not in t and t.startswith(q + " "):
+                t = t[len(q) + 1:]
+                changed = True
+    return t
+
+
 def is_codec_call(x):
     return isnode(x) and x["k"] in ("CallExpr", "CXXMemberCallExpr") and bool(codec_of(x.get("callee")) or FORMAT_CODEC.match(x.get("callee") or ""))
 
@@ -478,6 +502,24 @@ class Folder:
                     d = strip(dst, casts=True)
                     if isnode(d) and d["k"] == "UnaryOperator" and d["op"] == "&":
                         self._pending_read = var_ref(d["sub"])
+                return
+            if sc in MEMBER_HELPERS:
+                # documented helpers for user-defined codecs: one Codec<remove_cvref_t<Ti>> call per member, in pack order, on the
+                # same cursor (that this is what the helper bodies do is checked separately: C04.R9a)
+                hk, first = MEMBER_HELPERS[sc]
+                if hk != self.kind:
+                    raise Unfoldable("%s used in a %s function at %s" % (sc, self.kind, e.get("loc")))
+                if hk in ("encode", "decode") and not self.is_cursor(e["args"][0]):
+                    raise Unfoldable("%s on a different cursor at %s" % (sc, e.get("loc")))
+                for a in e["args"][first:]:
+                    ty = (strip(a, casts=True) or {}).get("ty") if isnode(strip(a, casts=True)) else None
+                    if not ty:
+                        raise Unfoldable("%s: member argument without a type at %s" % (sc, e.get("loc")))
+                    t = norm_type(remove_cvref_txt(ty))
+                    if hk == "decode":
+                        items.append(Item("SUB", t=t, des=des_of(self.sym(a)), val=None))
+                    else:
+                        items.append(Item("SUB", t=t, des=self.designator(a), val=self.sym(a)))
                 return
             if sc == "std::apply" or sc.endswith("::apply"):
                 lam = None
